@@ -88,6 +88,9 @@ func reach(starts []pos2, cut *Cut) InstrSet {
 			if cut != nil && cut.Edges[Edge{b, idx}] {
 				continue
 			}
+			if deadConstEdge(b, idx) {
+				continue
+			}
 			if len(s.Instrs) > 0 && !seen[s.Instrs[0]] {
 				stack = append(stack, pos2{s, 0})
 			}
@@ -124,6 +127,9 @@ func ReachAfter(from ssa.Instruction, cut *Cut) InstrSet {
 	var starts []pos2
 	for idx, s := range b.Succs {
 		if cut != nil && cut.Edges[Edge{b, idx}] {
+			continue
+		}
+		if deadConstEdge(b, idx) {
 			continue
 		}
 		starts = append(starts, pos2{s, 0})
@@ -339,4 +345,22 @@ func InLoop(in ssa.Instruction) bool {
 // without passing through a again.
 func ReachWithout(from, to ssa.Instruction, avoid ...ssa.Instruction) bool {
 	return ReachAfter(from, NewCut().AddInstrs(avoid...))[to]
+}
+
+// deadConstEdge reports whether out-edge idx of b can never be taken because
+// b ends in an If on a boolean constant (`if x && false`).
+func deadConstEdge(b *ssa.BasicBlock, idx int) bool {
+	if len(b.Instrs) == 0 {
+		return false
+	}
+	iff, ok := b.Instrs[len(b.Instrs)-1].(*ssa.If)
+	if !ok {
+		return false
+	}
+	c, ok := iff.Cond.(*ssa.Const)
+	if !ok || c.Value == nil {
+		return false
+	}
+	isTrue := c.Value.String() == "true"
+	return (idx == 0 && !isTrue) || (idx == 1 && isTrue)
 }
